@@ -365,6 +365,7 @@ func checkC15(c *Ctx) {
 	c.c15Broadcast(hubFns, fList, fOp)
 	c.c15DropFailed(hubFns, fList)
 	c.c15QueueCapacity()
+	c.c15Wiring()
 
 	// ---- D2..D4 over listener implementers
 	impls := c.listenerImpls()
@@ -414,15 +415,11 @@ func checkC15(c *Ctx) {
 	// channels owned by listener types: close race and closed-test
 	listenerChans := map[string]string{}
 	for _, T := range impls {
-		st, ok := T.Underlying().(*types.Struct)
-		if !ok {
-			continue
-		}
-		for i := 0; i < st.NumFields(); i++ {
-			if _, isChan := st.Field(i).Type().Underlying().(*types.Chan); isChan {
-				for k := range ops {
-					if _, f := keyField(k, ops[k]); f != nil && eng.SameField(f, st.Field(i)) {
-						listenerChans[k] = eng.ShortType(T) + "." + st.Field(i).Name()
+		for _, oc := range ownedChanFields(T) {
+			for k := range ops {
+				if _, f := keyField(k, ops[k]); f != nil && eng.SameField(f, oc.f) {
+					if _, dup := listenerChans[k]; !dup {
+						listenerChans[k] = oc.name
 					}
 				}
 			}
@@ -845,6 +842,46 @@ func (c *Ctx) c15Broadcast(hubFns []*ssa.Function, fList, fOp *types.Var) {
 // c15QueueCapacity: the history is replayed to a joining listener inside one hub operation,
 // i.e. before the listener's consumer can have drained anything; with a non-blocking enqueue
 // the queue must therefore be able to hold the whole history.
+
+// ownedChan is a channel a listener type owns: a channel-typed field of the type itself or of a
+// struct type of its package that it holds by value or by pointer (a queue record shared by the
+// listener types, possibly generic).
+type ownedChan struct {
+	f    *types.Var
+	name string
+}
+
+func ownedChanFields(T *types.Named) []ownedChan {
+	var out []ownedChan
+	seen := map[*types.Var]bool{}
+	var scan func(n *types.Named, prefix string, depth int)
+	scan = func(n *types.Named, prefix string, depth int) {
+		st, ok := n.Underlying().(*types.Struct)
+		if !ok || depth > 2 {
+			return
+		}
+		for i := 0; i < st.NumFields(); i++ {
+			f := st.Field(i)
+			if _, isChan := f.Type().Underlying().(*types.Chan); isChan {
+				if !seen[f.Origin()] {
+					seen[f.Origin()] = true
+					out = append(out, ownedChan{f, prefix + "." + f.Name()})
+				}
+				continue
+			}
+			t := f.Type()
+			if pt, ok := t.(*types.Pointer); ok {
+				t = pt.Elem()
+			}
+			if inner, ok := t.(*types.Named); ok && inner.Obj().Pkg() == T.Obj().Pkg() && inner.Obj() != T.Obj() {
+				scan(inner, prefix+"."+f.Name(), depth+1)
+			}
+		}
+	}
+	scan(T, eng.ShortType(T), 0)
+	return out
+}
+
 func (c *Ctx) c15QueueCapacity() {
 	r, p := c.R, c.P
 	r.Rule("C15/REPLAY/queue-capacity", "the event queue of every msghub.Listener implementer is created with a capacity of (configured history length) + a positive constant")
@@ -853,18 +890,16 @@ func (c *Ctx) c15QueueCapacity() {
 		return
 	}
 	n := 0
+	doneQ := map[*types.Var]bool{}
 	for _, T := range c.listenerImpls() {
-		st, ok := T.Underlying().(*types.Struct)
-		if !ok {
-			continue
-		}
 		pkgRel := strings.TrimPrefix(T.Obj().Pkg().Path(), eng.Mod+"/")
-		for i := 0; i < st.NumFields(); i++ {
-			f := st.Field(i)
-			ch, isChan := f.Type().Underlying().(*types.Chan)
-			if !isChan {
-				continue
+		for _, oc := range ownedChanFields(T) {
+			f := oc.f
+			if doneQ[f.Origin()] {
+				continue // a queue record shared by several listener types is examined once
 			}
+			doneQ[f.Origin()] = true
+			ch := f.Type().Underlying().(*types.Chan)
 			if s, ok := ch.Elem().Underlying().(*types.Struct); ok && s.NumFields() == 0 {
 				continue // a signal channel (chan struct{}), not an event queue
 			}
@@ -874,7 +909,7 @@ func (c *Ctx) c15QueueCapacity() {
 					continue
 				}
 				n++
-				cons := eng.ShortType(T) + "." + f.Name()
+				cons := oc.name
 				if derivesFromHistoryLen(p, mk.Size, fHist, 0) {
 					r.Ok("C15/REPLAY/queue-capacity", cons, p.InstrPos(mk), "capacity = history length + constant")
 				} else {
@@ -896,10 +931,10 @@ func derivesFromHistoryLen(p *eng.Prog, v ssa.Value, fHist *types.Var, depth int
 	switch x := v.(type) {
 	case *ssa.BinOp:
 		if x.Op == token.ADD {
-			if k, isC := eng.ConstInt(x.Y); isC && k > 0 {
+			if positiveConst(p, x.Y) {
 				return isHistoryLen(p, x.X, fHist, depth+1)
 			}
-			if k, isC := eng.ConstInt(x.X); isC && k > 0 {
+			if positiveConst(p, x.X) {
 				return isHistoryLen(p, x.Y, fHist, depth+1)
 			}
 		}
@@ -1295,7 +1330,45 @@ func (c *Ctx) c15DropFailed(hubFns []*ssa.Function, fList *types.Var) {
 			cons := siteCons(p, in, ord, "delete")
 			key := call.Call.Args[1]
 			if rangeKey(key) != nil {
-				r.Ok("C15/ISOLATE/drop-the-failed", cons, p.InstrPos(in), "the key is the relay loop's own range key")
+				// and it is dropped because its own relay failed: the removal lies on the
+				// error edge of a Listener call made on that same key in this iteration
+				var relays []*ssa.Call
+				eng.EachInstr(fn, func(x ssa.Instruction) {
+					if rc, ok := x.(*ssa.Call); ok && rc.Call.IsInvoke() && rangeKey(rc.Call.Value) == rangeKey(key) {
+						relays = append(relays, rc)
+					}
+				})
+				if len(relays) > 0 {
+					guarded := false
+					for _, rc := range relays {
+						aliases := append(eng.ValueAliases(rc), ssa.Value(rc))
+						for _, b := range fn.Blocks {
+							for k := 0; k < len(b.Succs) && len(b.Succs) == 2; k++ {
+								rel, ok := eng.EdgeRel(b, k)
+								if !ok || rel.Op != token.NEQ {
+									continue
+								}
+								x, y := rel.X, rel.Y
+								if eng.IsNilConst(x) {
+									x, y = y, x
+								}
+								if !eng.IsNilConst(y) {
+									continue
+								}
+								for _, a := range aliases {
+									if a == x && eng.EdgeDominates(b, k, in.Block()) {
+										guarded = true
+									}
+								}
+							}
+						}
+					}
+					if !guarded {
+						r.Bad("C15/ISOLATE/drop-the-failed", cons, p.InstrPos(in), "the relay loop's listener is removed although its relay did not fail (the removal is not on the error edge of the Listener call made on it): a healthy monitor is unregistered and sees no later event")
+						return
+					}
+				}
+				r.Ok("C15/ISOLATE/drop-the-failed", cons, p.InstrPos(in), "the key is the relay loop's own range key, removed on the error edge of its own relay")
 				return
 			}
 			u, ok := key.(*ssa.UnOp)
@@ -1427,4 +1500,101 @@ func (c *Ctx) c15DropFailed(hubFns []*ssa.Function, fList *types.Var) {
 		})
 	}
 	r.Floor("C15/ISOLATE/drop-the-failed", "delete(Hub.listeners, …) sites", n, 1)
+}
+
+// c15Wiring: the hub hears of every stored and every deleted message. The stores and the
+// manager announce them through the extension host's AfterMessageStored / AfterMessageDeleted
+// brokers; the hub must be registered on both, with callbacks that hand the event to
+// Dispatch and Delete respectively. Without the registration (or with a callback that does
+// something else) the monitors see nothing, or never learn of deletions — and the unit tests of
+// the hub, which call Dispatch and Delete themselves, do not notice.
+func (c *Ctx) c15Wiring() {
+	r, p := c.R, c.P
+	rule := "C15/WIRING"
+	r.Rule(rule, "non-test code registers a listener on extension.Events.AfterMessageStored whose callback reaches Hub.Dispatch on every path, and one on AfterMessageDeleted whose callback reaches Hub.Delete on every path")
+	fStored := p.Field("pkg/extension", "Events", "AfterMessageStored")
+	fDeleted := p.Field("pkg/extension", "Events", "AfterMessageDeleted")
+	dispatch := p.Method("pkg/msghub", "Hub", "Dispatch")
+	del := p.Method("pkg/msghub", "Hub", "Delete")
+	if fStored == nil || fDeleted == nil || dispatch == nil || del == nil {
+		return
+	}
+	for _, w := range []struct {
+		f      *types.Var
+		target *ssa.Function
+		what   string
+	}{{fStored, dispatch, "stored"}, {fDeleted, del, "deleted"}} {
+		found, good := 0, 0
+		site := ""
+		for _, fn := range p.Funcs {
+			if p.IsTestSupport(fn) || !eng.InModule(fn) {
+				continue
+			}
+			fn := fn
+			eng.EachInstr(fn, func(in ssa.Instruction) {
+				call, ok := in.(*ssa.Call)
+				if !ok || !strings.HasSuffix(eng.CalleeName(call.Common()), ".AddListener") || len(call.Call.Args) < 3 {
+					return
+				}
+				if !eng.SameField(eng.AddrField(call.Call.Args[0]), w.f) {
+					return
+				}
+				cb, _, isFn := eng.FuncValueOf(call.Call.Args[2])
+				if !isFn || cb == nil {
+					return
+				}
+				reaches := false
+				for g := range p.SyncReach(cb) {
+					if g == w.target {
+						reaches = true
+					}
+				}
+				if !reaches {
+					return
+				}
+				found++
+				site = p.InstrPos(in)
+				// on every path of the callback
+				isTarget := func(x ssa.Instruction) bool {
+					cc := eng.CallOf(x)
+					return cc != nil && eng.StaticCallee(cc) == w.target
+				}
+				if ret := (&eng.Search{Target: eng.IsReturnOf(cb), Avoid: isTarget, Deep: true}).FromEntry(cb); ret == nil {
+					good++
+				}
+			})
+		}
+		cons := "hub-hears:" + w.what
+		switch {
+		case found == 0:
+			r.Bad(rule, cons, p.Pos(w.target.Pos()), "no listener registered on extension.Events.%s reaches %s: the hub never hears of %s messages, so no monitor does (the hub's own tests call %s directly and do not notice)", w.f.Name(), shortFn(w.target), w.what, w.target.Name())
+		case good == 0:
+			r.Bad(rule, cons, site, "the listener registered on extension.Events.%s at %s does not call %s on every path: some %s events never reach the monitors", w.f.Name(), site, shortFn(w.target), w.what)
+		default:
+			r.Ok(rule, cons, site, "registered at %s; the callback calls %s on every path", site, shortFn(w.target))
+		}
+	}
+}
+
+// positiveConst: v is a positive integer constant, or a parameter that receives one at every
+// call site the call graph knows.
+func positiveConst(p *eng.Prog, v ssa.Value) bool {
+	v = eng.StripConv(v)
+	if k, isC := eng.ConstInt(v); isC {
+		return k > 0
+	}
+	prm, ok := v.(*ssa.Parameter)
+	if !ok {
+		return false
+	}
+	vals, ok := p.ActualsOf(prm)
+	if !ok || len(vals) == 0 {
+		return false
+	}
+	for _, a := range vals {
+		if k, isC := eng.ConstInt(eng.StripConv(a)); !isC || k <= 0 {
+			return false
+		}
+	}
+	return true
 }
